@@ -451,8 +451,12 @@ func (e *Engine) resolveType(ctx *EvalCtx, text string) (types.Type, error) {
 				}
 			}
 			if j := strings.Index(base, "."); j > 0 {
-				for _, imp := range e.allPkgs() {
-					if imp.Name() == base[:j] {
+				cands := e.allPkgs()
+				if imp := e.importByAlias(ctx.pkg, base[:j]); imp != nil {
+					cands = []*types.Package{imp}
+				}
+				for _, imp := range cands {
+					if imp.Name() == base[:j] || len(cands) == 1 {
 						if obj := imp.Scope().Lookup(base[j+1:]); obj != nil {
 							t := obj.Type()
 							for k := len(prefix); k > 0; {
@@ -488,10 +492,42 @@ func (e *Engine) allPkgs() []*types.Package {
 	return out
 }
 
+// importByAlias resolves the local name of an import (alias or package name) in the files of pkg.
+func (e *Engine) importByAlias(pkg *types.Package, alias string) *types.Package {
+	if pkg == nil {
+		return nil
+	}
+	pp := e.P.Pkgs[pkg.Path()]
+	if pp != nil {
+		for _, f := range pp.Syntax {
+			for _, is := range f.Imports {
+				path := strings.Trim(is.Path.Value, "\"")
+				ip := pp.Imports[path]
+				if ip == nil || ip.Types == nil {
+					continue
+				}
+				local := ip.Types.Name()
+				if is.Name != nil {
+					local = is.Name.Name
+				}
+				if local == alias {
+					return ip.Types
+				}
+			}
+		}
+	}
+	for _, imp := range pkg.Imports() {
+		if imp.Name() == alias {
+			return imp
+		}
+	}
+	return nil
+}
+
 func (e *Engine) evalQualified(ctx *EvalCtx, pkgName, name string) (Val, bool, error) {
 	// imported package of ctx.pkg with that name
-	for _, imp := range ctx.pkg.Imports() {
-		if imp.Name() == pkgName {
+	if imp := e.importByAlias(ctx.pkg, pkgName); imp != nil {
+		{
 			obj := imp.Scope().Lookup(name)
 			if obj == nil {
 				return Val{}, true, fmt.Errorf("%s.%s not found", pkgName, name)
@@ -1485,8 +1521,8 @@ func (e *Engine) evalMethodCall(ctx *EvalCtx, x *Expr) (Val, error) {
 	// package-qualified function?
 	if id := x.Args[0]; id.Op == "ident" {
 		if _, bound := ctx.binds[id.Name]; !bound && ctx.pkg != nil {
-			for _, imp := range ctx.pkg.Imports() {
-				if imp.Name() == id.Name {
+			if imp := e.importByAlias(ctx.pkg, id.Name); imp != nil {
+				{
 					if sp := e.P.SPkgs[imp.Path()]; sp != nil {
 						if fn := sp.Func(mname); fn != nil {
 							var vs []Val
@@ -1599,6 +1635,35 @@ func (e *Engine) callPure(ctx *EvalCtx, fn *ssa.Function, args []Val) (Val, erro
 			if v, ok := e.pureApply(c, 0, fn.Signature.Results().At(0).Type(), args); ok {
 				return v, nil
 			}
+		}
+	}
+	{
+		full := fn.String()
+		if o := fn.Origin(); o != nil {
+			full = o.String()
+		}
+		if m, ok := libModels[full]; ok {
+			if ctx.f == nil {
+				ctx.f = &Frame{e: e, silent: true, prefix: "spec", vals: map[ssa.Value]Val{}}
+			}
+			// library function with a model: the same model as at call sites (silently)
+			for i, p := range fn.Params {
+				if i < len(args) {
+					_, a := e.coerceInts(Val{T: p.Type()}, args[i])
+					a.T = p.Type()
+					args[i] = a
+				}
+			}
+			var rt types.Type = fn.Signature.Results()
+			if fn.Signature.Results().Len() == 1 {
+				rt = fn.Signature.Results().At(0).Type()
+			}
+			wasSilent := ctx.f.silent
+			ctx.f.silent = true
+			v := m(ctx.f, ctx.st.clone(), &ssa.CallCommon{}, args, rt, token.NoPos)
+			ctx.f.silent = wasSilent
+			e.usedModels[full] = true
+			return v, nil
 		}
 	}
 	if len(fn.Blocks) == 0 {
